@@ -663,7 +663,15 @@ impl Enc {
     /// recovery shards by the iterator; the flag says that recovery(i) agrees with it and is None from recovery_count on, and that the iterator stays at None
     fn encode(&mut self) -> Result<(Vec<Vec<u8>>, bool), Error> { enc_do!(self, x => { let res = x.encode()?; let mut it = res.recovery_iter(); let mut v: Vec<Vec<u8>> = vec![];
         while let Some(s) = it.next() { v.push(s.to_vec()); } let fused = (0..3).all(|_| it.next().is_none());
-        let acc = fused && (0..v.len()).all(|i| res.recovery(i) == Some(&v[i][..])) && [v.len(), v.len() + 1, usize::MAX, usize::MAX - 1].iter().all(|&i| res.recovery(i).is_none()); Ok((v, acc)) }) }
+        // the standard iterator adaptors built on `next` (skip / nth / step_by, also on a partly consumed iterator) see the same sequence
+        let adapt = {
+            let a: Vec<Vec<u8>> = res.recovery_iter().skip(1).take(v.len() + 2).map(|s| s.to_vec()).collect();
+            let b: Vec<Vec<u8>> = res.recovery_iter().step_by(2).take(v.len() + 2).map(|s| s.to_vec()).collect();
+            let mut it2 = res.recovery_iter(); let first = it2.next().map(|s| s.to_vec()); let third = it2.nth(1).map(|s| s.to_vec());
+            a == v.iter().skip(1).cloned().collect::<Vec<_>>() && b == v.iter().step_by(2).cloned().collect::<Vec<_>>()
+                && first == v.first().cloned() && third == v.get(2).cloned()
+        };
+        let acc = fused && adapt && (0..v.len()).all(|i| res.recovery(i) == Some(&v[i][..])) && [v.len(), v.len() + 1, usize::MAX, usize::MAX - 1].iter().all(|&i| res.recovery(i).is_none()); Ok((v, acc)) }) }
     fn into_work(self) -> EncoderWork { match self { Enc::Rs(_) => unreachable!(), Enc::Def(x) => x.into_parts().1, Enc::High(x) => x.into_parts().1, Enc::Low(x) => x.into_parts().1 } }
 }
 
